@@ -485,6 +485,11 @@ func writeMarshal(repoRoot, srcRoot, verifRoot string, check bool) int {
 		return 0
 	}
 	stale := 0
+	if s, err := os.ReadFile(filepath.Join(verifRoot, "contracts", "marshal", "secp256k1.go")); err == nil {
+		if _, err := os.Stat(filepath.Join(srcRoot, "ecc", "secp256k1", "marshal.go")); err == nil {
+			stale += installText(filepath.Join(repoRoot, "ecc", "secp256k1", "zz_verif_contracts_marshal.go"), string(s), check)
+		}
+	}
 	for _, pk := range marshalPkgs(srcRoot) {
 		rel := strings.TrimPrefix(pk, "./")
 		src, _ := os.ReadFile(filepath.Join(srcRoot, rel, "marshal.go"))
